@@ -112,6 +112,8 @@ TRANSPARENT = [
     ('option::Option::<T>::unwrap', 0, 'unwrap'),
     ('option::Option::<T>::expect', 0, 'unwrap'),
     ('option::Option::<T>::unwrap_or', 0, 'unwrap_or'),
+    ('option::Option::<T>::unwrap_or_else', 0, 'unwrap_or'),
+    ('option::Option::<T>::unwrap_or_default', 0, 'unwrap_or'),
     ('result::Result::<T, E>::unwrap_or', 0, 'unwrap_or'),
     ("self_referential::NodeRef::<'a, N>::as_ref", 0, 'as_ref'),
     ("slice::iter::Iter::<'a, T>::as_slice", 0, 'as_ref'),
